@@ -1,6 +1,6 @@
 CONFIG = {
     'subs': ['Parse', 'StrToNum'],
-    'props_modules': ['DmlcModel.Props.C11', 'DmlcModel.Props.C11Witness', 'DmlcModel.Props.C11Pipeline'],
+    'props_modules': ['DmlcModel.Props.C11', 'DmlcModel.Props.C11Witness', 'DmlcModel.Props.C11Pipeline', 'DmlcModel.Props.C11Threaded'],
     'driver': 'Parse',
     'harness': {'name': 'parsers',
                 'srcs': ['harness/h_parsers.cc', '$REPO/src/io/line_split.cc', '$REPO/src/io/input_split_base.cc',
@@ -11,7 +11,9 @@ CONFIG = {
             '(thorough: 4) over a 12-13 token alphabet per format, alone and in front of a fixed tail; random multi-line '
             'documents whose lines mostly share one shape) x configurations (ParseBlock with NUL / foreign trailing bytes, each '
             'line alone, FillData with 2..max threads, LineSplitter pipelines with 1-16 word buffers x 1-4 parts x 1..max '
-            'threads, indexing_mode 0/1, 32/64-bit indices, csv float/int32/int64); a case is non-trivial when the '
+            'threads, indexing_mode 0/1, 32/64-bit indices, csv float/int32/int64; the same pipelines behind the prefetching '
+            'ThreadedParser read by a slow consumer that lets the parsing thread run until it blocks before looking at Value(), '
+            'long documents with more chunks than prefetch cells); a case is non-trivial when the '
             'document is non-empty; distinct = distinct hash of the op list',
     'assumptions': ['the numeric conversions are a parameter of the model (contract Conv.Local: the result depends only on '
                     'the run of non-EOL, non-NUL bytes at the start position); the executable driver takes strtof / ParseUnsignedInt from '
@@ -21,7 +23,8 @@ CONFIG = {
                     'x86-64, binary32 round-to-nearest-even, char compared as byte values < 0x80 only',
                     'indexing_mode >= 0 (auto-detection excluded by the property)'],
     'trusted_base': ['modelled by hand, tied by correspondence only: control flow of ParsePair / ParseTriple / '
-                     'IgnoreCommentAndBlank / the three ParseBlock bodies / BackFindEndLine / FillData / ParserImpl::Next / '
+                     'IgnoreCommentAndBlank / the three ParseBlock bodies / BackFindEndLine / FillData / ParserImpl::Next / ThreadedParser::Next '
+                     '(loop models in Parse/ParserNext.lean; the iterator under ThreadedParser is represented by its delivery order, C07) / '
                      'GetBlock / operator[]; dmlc::strtof / ParseUnsignedInt as modelled by C14 (StrToNum), libc atoll / strtoll as emulated in ConvSimple'],
     'partial': ['C11_pipeline (files -> parts -> chunks -> FillData slices -> rows) carries one residual hypothesis: every chunk '
                 'is shorter than 2^63 - nthread bytes (C03 exports no bound on the chunk length); the memory behind a chunk is '
